@@ -22,19 +22,19 @@ import (
 )
 
 var (
-	tier     = flag.String("tier", "quick", "quick|thorough")
-	driver   = flag.String("driver", "/verif/lean/.lake/build/bin/driver", "lean driver binary (latch wrapper model)")
-	out      = flag.String("out", "/verif/evidence/.c05x.report.json", "report path")
-	findings = flag.String("findings", "/verif/known-findings.json", "known findings")
-	replay   = flag.String("replay", "", "replay file: lines 'c05x.run …' or a replays/*.json written by ./check")
-	scale    = flag.Int("scale", 1, "multiply generated case counts (search mode uses 10)")
-	nomodel  = flag.Bool("nomodel", false, "skip the wrapper-model correspondence (driver unavailable / search mode)")
-	hints    = flag.String("hints", "", "file of protocol lines that disagreed (unused: there is no parsing model to disagree with)")
-	prop     = flag.String("prop", "C05", "C05|C06|C15: which property's oracles are reported")
-	child    = flag.Bool("child", false, "internal: run cases from stdin in this (expendable) process")
-	workers  = flag.Int("workers", 0, "worker goroutines (default min(8, NumCPU))")
-	only     = flag.String("only", "", "comma-separated formats to restrict to (development aid)")
-	verbose  = flag.Bool("v", false, "print every failing case")
+	tier      = flag.String("tier", "quick", "quick|thorough")
+	driver    = flag.String("driver", "/verif/lean/.lake/build/bin/driver", "lean driver binary (latch wrapper model)")
+	out       = flag.String("out", "/verif/evidence/.c05x.report.json", "report path")
+	findings  = flag.String("findings", "/verif/known-findings.json", "known findings")
+	replay    = flag.String("replay", "", "replay file: lines 'c05x.run …' or a replays/*.json written by ./check")
+	scale     = flag.Int("scale", 1, "multiply generated case counts (search mode uses 10)")
+	nomodel   = flag.Bool("nomodel", false, "skip the wrapper-model correspondence (driver unavailable / search mode)")
+	hints     = flag.String("hints", "", "file of protocol lines that disagreed (unused: there is no parsing model to disagree with)")
+	prop      = flag.String("prop", "C05", "C05|C06|C15: which property's oracles are reported")
+	childFlag = flag.Bool("child", false, "internal: run cases from stdin in this (expendable) process")
+	workers   = flag.Int("workers", 0, "worker goroutines (default min(8, NumCPU))")
+	only      = flag.String("only", "", "comma-separated formats to restrict to (development aid)")
+	verbose   = flag.Bool("v", false, "print every failing case")
 )
 
 // Case is one decoder run (C05/C06) or one base input for the schedule comparisons (C15).
@@ -171,12 +171,14 @@ func globMatch(pat, s string) bool {
 }
 
 type collector struct {
-	mu     sync.Mutex
-	rep    *vh.Report
-	known  map[string]vh.Finding
-	seen   map[string]int // per class key: how many
-	viols  []violation
-	leaked int
+	probeMu sync.Mutex
+	prober  *runner
+	mu      sync.Mutex
+	rep     *vh.Report
+	known   map[string]vh.Finding
+	seen    map[string]int // per class key: how many
+	viols   []violation
+	leaked  int
 }
 
 func (k *collector) add(v violation) {
@@ -236,30 +238,6 @@ func preview(b []byte) string {
 	return fmt.Sprintf("%q", b)
 }
 
-// judge evaluates the single-run oracles of C05 and C06 on an outcome.
-func (k *collector) judge(c Case, r runResult) {
-	switch r.Verdict {
-	case "panic":
-		k.add(violation{Prop: "C05", Kind: "panic", Format: c.Format, Sub: r.Panic.Func + "|" + r.Panic.Kind, Detail: "panic: " + r.Panic.Value, Case: c})
-	case "hang":
-		k.add(violation{Prop: "C05", Kind: "hang", Format: c.Format, Sub: hangSub(c), Detail: fmt.Sprintf("no result within %v", budget(len(c.Input))), Case: c})
-	}
-	for _, l := range r.Life {
-		sub := l
-		if i := strings.Index(sub, ":"); i > 0 {
-			sub = sub[:i]
-		}
-		k.add(violation{Prop: "C05", Kind: "life", Format: c.Format, Sub: sub, Detail: l, Case: c})
-	}
-	for _, w := range r.WF {
-		sub := w
-		if i := strings.Index(sub, " in "); i > 0 {
-			sub = sub[:i]
-		}
-		k.add(violation{Prop: "C06", Kind: "wf", Format: c.Format, Sub: sub, Detail: w, Case: c})
-	}
-}
-
 // ---------------------------------------------------------------- main
 
 // realStderr: third-party code (cursorio.TextWriter) prints "FATAL: …" to os.Stderr before it panics;
@@ -272,7 +250,7 @@ func main() {
 		os.Stderr = dn
 	}
 	debug.SetGCPercent(200)
-	if *child {
+	if *childFlag {
 		childMain()
 		return
 	}
@@ -323,6 +301,12 @@ func main() {
 		}
 	}
 	k.flush()
+	if k.prober != nil {
+		k.prober.close()
+	}
+	if rep.Cases == nil {
+		rep.Cases = []vh.Case{} // "cases": [] rather than null
+	}
 	if err := rep.Write(*out); err != nil {
 		fmt.Fprintln(realStderr, err)
 		os.Exit(2)
@@ -354,18 +338,18 @@ func (e *engine) replayFile(path string) {
 	} else {
 		lines = strings.Split(string(b), "\n")
 	}
-	for _, l := range lines {
-		c, ok := parseLine(strings.TrimSpace(l))
-		if !ok {
-			continue
+	e.farm(1, func(emit func(job)) {
+		for _, l := range lines {
+			c, ok := parseLine(strings.TrimSpace(l))
+			if !ok {
+				continue
+			}
+			if *prop == "C15" {
+				emit(job{Kind: jobSchedule, C: c, Seed: e.rng.U64(), Thorough: e.thorough, Verbose: true})
+			} else {
+				emit(job{Kind: jobSingle, C: c, Verbose: true})
+			}
 		}
-		if *prop == "C15" {
-			e.scheduleCase(c, e.rng.Fork(), true)
-		} else {
-			r := execCase(c)
-			e.account(c, r)
-			e.k.judge(c, r)
-			fmt.Printf("replay %s: verdict=%s stmts=%d err=%q panic=%v life=%v wf=%v\n", c.Format, r.Verdict, len(r.Stmts), r.Err, r.Panic, r.Life, r.WF)
-		}
-	}
+	})
+	e.confirmSuspects()
 }
